@@ -550,11 +550,23 @@ impl Rest {
         false
     }
 
-    fn announced(&self, idx: Option<usize>, initial: bool) -> Option<usize> {
+    /// The limits a stage may show at a quiescent point: the latest one announced while its input
+    /// was alive, or the latest one announced after that.
+    fn announced(&self, idx: Option<usize>, initial: bool) -> Vec<Option<usize>> {
         if initial {
-            return None;
+            return vec![None];
         }
-        idx.and_then(|i| self.limits.writers[i].announced)
+        match idx {
+            None => vec![None],
+            Some(i) => {
+                let w = &self.limits.writers[i];
+                let mut v = vec![w.announced];
+                if w.late.is_some() && w.late != w.announced {
+                    v.push(w.late);
+                }
+                v
+            }
+        }
     }
 
     /// Stage views: every boundary's replica is the view of the boundary below.
@@ -562,10 +574,41 @@ impl Rest {
         let c = &self.consumers[j];
         for (k, g) in c.groups.iter().enumerate() {
             let input = vs(&c.taps[k].borrow().replica);
-            let stages: Vec<(StageSpec, Option<usize>)> = g.stages.iter().map(|(s, li)| (*s, self.announced(*li, initial))).collect();
-            let want = group_view(&stages, &input);
             let got = vs(&c.taps[k + 1].borrow().replica);
-            if let Err(err) = matches(&want, &got) {
+            let cands: Vec<Vec<Option<usize>>> = g.stages.iter().map(|(_, li)| self.announced(*li, initial)).collect();
+            let mut idx = vec![0usize; cands.len()];
+            let mut first_err: Option<String> = None;
+            let mut ok = false;
+            loop {
+                let stages: Vec<(StageSpec, Option<usize>)> = g.stages.iter().enumerate().map(|(n, (s, _))| (*s, cands[n][idx[n]])).collect();
+                let want = group_view(&stages, &input);
+                match matches(&want, &got) {
+                    Ok(()) => {
+                        ok = true;
+                        break;
+                    }
+                    Err(e) => {
+                        if first_err.is_none() {
+                            first_err = Some(e);
+                        }
+                    }
+                }
+                // next combination
+                let mut d = 0;
+                while d < idx.len() {
+                    idx[d] += 1;
+                    if idx[d] < cands[d].len() {
+                        break;
+                    }
+                    idx[d] = 0;
+                    d += 1;
+                }
+                if d == idx.len() {
+                    break;
+                }
+            }
+            if !ok {
+                let err = first_err.unwrap_or_default();
                 let mut ps: Vec<&str> = g.stages.iter().map(|(s, _)| s.prop()).collect();
                 if c.spec.chain.len() > 1 {
                     ps.push("C12");
@@ -574,7 +617,7 @@ impl Rest {
                     ps.push("C13");
                 }
                 let oracle = if initial { "initial_view_mismatch" } else { "view_mismatch" };
-                let detail = format!("stage {:?} over input {:?} with announced limits {:?}: {}", g.stages.iter().map(|(s, _)| *s).collect::<Vec<_>>(), input, stages.iter().map(|(_, a)| *a).collect::<Vec<_>>(), err);
+                let detail = format!("stage {:?} over input {:?} with announced limits {:?}: {}", g.stages.iter().map(|(s, _)| *s).collect::<Vec<_>>(), input, cands.iter().map(|c| c[0]).collect::<Vec<_>>(), err);
                 self.violate(&ps, oracle, (k + 1) as i32, detail);
                 return;
             }
@@ -899,10 +942,13 @@ impl Rest {
             }
         }
         if let Some(v) = announce {
-            // (a stage whose own stream has already ended — its source ended, possibly polls before
-            // the consumer's outermost stream reports the end — is out of reach of later limits)
-            for w in self.limits.writers.iter_mut().filter(|w| w.src == i && !w.tap.borrow().stage_ended) {
-                w.announced = Some(v);
+            // (once the stream a stage reads from has ended, a later limit is optional for it)
+            for w in self.limits.writers.iter_mut().filter(|w| w.src == i) {
+                if w.tap.borrow().input_ended {
+                    w.late = Some(v);
+                } else {
+                    w.announced = Some(v);
+                }
             }
         }
         self.audit_armed();
